@@ -28,6 +28,7 @@ ASSUMPTIONS = ["BlockValue.size_exponent <= 7 for block values in the handler st
 
 
 def check(env, rep, tier):
+    include(rep, env, tier, "c20", ("C20.2",), "C08.8", "'later blocks are served from the cache': the per-key entry is only reached through entry()/or_insert() - it is never removed, replaced or iterated by the handler")
     configs = ["default"] if tier == "quick" else ["default", "udp"]
     rep.configs = configs
     for cfg in configs:
@@ -76,7 +77,18 @@ def check(env, rep, tier):
         # ------------------------------------------------ request side
         rb = req_side[0]
         req_arg = [i for i in range(rb["arg_count"]) if "request::CoapRequest" in prog.types[rb["locals"][i + 1]["ty"]]["s"]]
-        tr2 = Trace(prog, None, body=rb, req_arg=req_arg[0] if req_arg else 0)
+        bvdec = find_impl_fn(prog, "core::convert::TryFrom", BV, "alloc::vec::Vec<u8>", "try_from")
+
+        def setup_dec(tr_, I_, st_):
+            # a Block2 option whose value does not decode is treated as absent by the handler: mark those paths
+            def dec_ret(I__, ctx, outs):
+                for s_, rv_ in outs:
+                    if isinstance(rv_, EnumV) and list(rv_.variants) == [1]:
+                        s_.ghost[("inj", "block-undecodable")] = True
+            if bvdec is not None:
+                I_.return_hooks[bvdec["id"]] = dec_ret
+                I_.no_join_bodies.add(bvdec["id"])
+        tr2 = Trace(prog, None, body=rb, req_arg=req_arg[0] if req_arg else 0, setup=setup_dec)
         site2 = {"file": rb["span"]["f"], "line": rb["span"]["l"], "fn": rb["path"]}
         ok3 = ok4 = True
         n_served = 0
@@ -107,6 +119,45 @@ def check(env, rep, tier):
                "a request without a Block2 option leaves an earlier request's Block2 value remembered in the per-key state: "
                "the next reply is fragmented from a stale block number / size (paths: %d)" % n6, site2,
                sample={"rule": "C08.2", "paths_without_block2": n6})
+        # ---- C08.7 a follow-up is answered from the cache: with a reply cached for the key on entry, every path of the
+        #      request side that sees a Block2 option serves from it (the application is not consulted again), and a
+        #      request with a Block2 option leaves that value remembered for intercept_response (early negotiation)
+        def setup7(tr_, I_, st_):
+            setup_dec(tr_, I_, st_)
+            ek = [k for k in st_.cells if isinstance(k, tuple) and k[0] == "h" and str(k[1]).startswith("entry")]
+            if not ek:
+                return
+            cp = Place(ek[0], (("f", tr_.sf.get("cached_response")),))
+            cur = I_.ensure(st_, cp, None, "state.cache")
+            if isinstance(cur, EnumV):
+                pk = ("adt", "packet::Packet", (), "struct")
+                I_.write(st_, cp, EnumV(cur.path, {1: StructV([I_.mat(st_, pk, "cached")])}, cur.ty))
+                tr_.cache_set = True
+        tr7 = Trace(prog, None, body=rb, req_arg=req_arg[0] if req_arg else 0, setup=setup7)
+        n7, bad7, n_rem, bad_rem = 0, 0, 0, 0
+        for s, rv in tr7.res:
+            if s.ghost.get("has_Block2") is not True:
+                continue
+            marks = set(k[1] for k in s.ghost if isinstance(k, tuple) and k[0] == "inj")
+            if "block-undecodable" in marks:
+                continue
+            n7 += 1
+            if "served" not in marks:
+                bad7 += 1
+        for s, rv in tr2.res:
+            if s.ghost.get("has_Block2") is True and "err" not in tr2.ret_kind(rv) and not s.ghost.get(("inj", "block-undecodable")):
+                n_rem += 1
+                ek = [k for k in s.cells if isinstance(k, tuple) and k[0] == "h" and str(k[1]).startswith("entry")]
+                lb = tr2.I.read(s, Place(ek[0], (("f", tr2.sf.get("last_block2")),))) if ek else None
+                if not (isinstance(lb, EnumV) and list(lb.variants) == [1]):
+                    bad_rem += 1
+        rep.ob("C08.7", "follow-up-served-from-cache", getattr(tr7, "cache_set", False) and bad7 == 0 and n7 >= 1,
+               "with a reply cached for the key, %d of %d request-side paths that see a Block2 option do not serve from the cache: "
+               "the application is consulted again in the middle of a transfer" % (bad7, n7), site2,
+               sample={"rule": "C08.7", "paths_with_block2_and_cache": n7, "not_served": bad7})
+        rep.ob("C08.7", "block2-remembered", bad_rem == 0 and n_rem >= 1,
+               "a request with a Block2 option leaves the per-key state without that value (%d of %d paths): the size the client asked "
+               "for in its first request is lost before the reply is fragmented" % (bad_rem, n_rem), site2)
         rep.ob("C08.3", "served=>handled", ok3 and n_served > 0,
                "a follow-up block served from the cache is still passed to the application (Ok(false))", site2,
                sample={"rule": "C08.3", "served_paths": n_served})
